@@ -199,3 +199,87 @@ fn c19_q_chain_decision_equals_reference() {
     }
 }
 
+
+// ==========================================================================================
+// The extended-key-usage accessor on REAL certificate TLV bytes (the chain harness above
+// replaces it by a symbolic attribute): a certificate skeleton
+//   struct { 10: list { 3: array [ v0, .., v(N-1) ] } }
+// with concrete structure and symbolic purposes, decided against "every required purpose is
+// a member of the list". One harness per list length (the structure stays concrete).
+// ==========================================================================================
+fn eku_accessor_equals_reference<const N: usize>() {
+    // 0x15 struct, 0x37 0x0a list ctx 10, 0x36 0x03 array ctx 3, N x (0x04 v), 0x18 0x18 0x18
+    let mut bytes = [0u8; 5 + 2 * 3 + 3];
+    bytes[0] = 0x15;
+    bytes[1] = 0x37;
+    bytes[2] = 0x0a;
+    bytes[3] = 0x36;
+    bytes[4] = 0x03;
+    let mut v = [0u8; 3];
+    let mut i = 0;
+    while i < N {
+        v[i] = any_u8();
+        bytes[5 + 2 * i] = 0x04;
+        bytes[6 + 2 * i] = v[i];
+        i += 1;
+    }
+    bytes[5 + 2 * N] = 0x18;
+    bytes[6 + 2 * N] = 0x18;
+    bytes[7 + 2 * N] = 0x18;
+    let cert = CertRef::new(crate::tlv::TLVElement::new(&bytes[..8 + 2 * N]));
+
+    let required = [any_u8(), any_u8()];
+    let r = cert.ext_key_usage_has_all(&required);
+    vassert!(r.is_ok(), "ROLE:eku-accessor-decodes-wellformed-extension");
+    let got = match r {
+        Ok(b) => b,
+        Err(_) => return,
+    };
+    let mut has = [false; 2];
+    let mut k = 0;
+    while k < 2 {
+        let mut i = 0;
+        while i < N {
+            if v[i] == required[k] {
+                has[k] = true;
+            }
+            i += 1;
+        }
+        k += 1;
+    }
+    vcover!(got);
+    vcover!(!got);
+    vassert!(got == (has[0] && has[1]), "ROLE:eku-accepted-iff-every-required-purpose-is-listed");
+    // the NOC rule as verify_usage asks it
+    let noc = cert.ext_key_usage_has_all(&[1, 2]);
+    let mut one = false;
+    let mut two = false;
+    let mut i = 0;
+    while i < N {
+        one |= v[i] == 1;
+        two |= v[i] == 2;
+        i += 1;
+    }
+    vassert!(matches!(noc, Ok(b) if b == (one && two)), "ROLE:noc-eku-needs-both-serverAuth-and-clientAuth");
+}
+
+#[cfg_attr(kani, kani::proof)]
+#[cfg_attr(kani, kani::unwind(12))]
+#[cfg_attr(not(kani), test)]
+fn c19_q_eku_accessor_equals_reference_2() {
+    eku_accessor_equals_reference::<2>();
+}
+
+#[cfg_attr(kani, kani::proof)]
+#[cfg_attr(kani, kani::unwind(12))]
+#[cfg_attr(not(kani), test)]
+fn c19_q_eku_accessor_equals_reference_3() {
+    eku_accessor_equals_reference::<3>();
+}
+
+#[cfg_attr(kani, kani::proof)]
+#[cfg_attr(kani, kani::unwind(12))]
+#[cfg_attr(not(kani), test)]
+fn c19_q_eku_accessor_equals_reference_1() {
+    eku_accessor_equals_reference::<1>();
+}
